@@ -67,7 +67,7 @@ func slotWorkloads(c *chk.Ctx, label string, n int) []*slotJob {
 func c06(args []string) {
 	c := chk.New("C06", "exploration", args)
 	c.Build(false)
-	c.Rule("contention workloads: maxConcurrentTasks in {1,2,3,4,6,8} (and NumCPU+4.. with a process that needs all slots and one that needs NumCPU+1), 2-4 processes with CoresPerTask drawn from 1..max, half of the command processes wrapped through Prepend, about 3*max simultaneously ready tasks of 15-60 ms (commands and Go functions), skipped tasks mixed in, an optional streaming producer/consumer pair, one scenario with commands whose work is done by a helper outliving them, one long-wait scenario (a task waiting > 10 s for a slot); oracles = (1) sweep line over the commands' own CLOCK_MONOTONIC start/end stamps weighted by CoresPerTask, (2) shadow slot counter updated under the hook mutex at acquisition/release, (3) porcupine linearizability of the Acquire(k)/Release(k) history against a sequential counting semaphore. distinct_nontrivial = runs whose observed weighted overlap reached max (real contention), distinct by (max, cores mix, interleaving signature)")
+	c.Rule("contention workloads: maxConcurrentTasks in {1,2,3,4,6,8} (and NumCPU+4.. with a process that needs all slots and one that needs NumCPU+1), 2-4 processes with CoresPerTask drawn from 1..max, half of the command processes wrapped through Prepend, about 3*max simultaneously ready tasks of 15-60 ms (commands and Go functions), skipped tasks mixed in, an optional streaming producer/consumer pair, one scenario with commands whose work is done by a helper outliving them, one long-wait scenario (a task waiting > 10 s for a slot), SCIPIPE_BUFSIZE smaller than CoresPerTask, a multi-core task consuming a joined sub-stream while other tasks keep the slots busy; oracles = (1) sweep line over the commands' own CLOCK_MONOTONIC start/end stamps weighted by CoresPerTask, (2) shadow slot counter updated under the hook mutex at acquisition/release, (3) porcupine linearizability of the Acquire(k)/Release(k) history against a sequential counting semaphore. distinct_nontrivial = runs whose observed weighted overlap reached max (real contention), distinct by (max, cores mix, interleaving signature)")
 	c.Assume("a command's [start,end] interval lies inside its task's slot-holding interval, so the weighted overlap is a lower bound of slot usage (sound)", "CoresPerTask <= maxConcurrentTasks")
 	jobs := slotWorkloads(c, "c06", c.Pick(48, 500))
 	// long-wait scenario: three tasks of ~10.6 s on 2 slots, so that one task waits > 10 s for its slot
@@ -94,6 +94,40 @@ func c06(args []string) {
 		s, bh := gen.Contention(rng, fmt.Sprintf("bigmax%d", r), gen.ContentionOpts{Max: max, Procs: 3, TasksPer: 3, SleepLo: 40, SleepHi: 80, GoFunc: r%2 == 1, Prepend: true,
 			CoresFn: func(i int) int { return []int{max, 1, ncpu + 1}[i%3] }})
 		jobs = append(jobs, &slotJob{s, bh, Cfg{Buf: 128, Procs: 4}, "more-slots-than-cpus"})
+	}
+	// fewer buffer slots per connection than cores per task (two unrelated settings)
+	for r := 0; r < c.Pick(2, 6); r++ {
+		rng := c.Rand(fmt.Sprintf("c06-buf%d", r))
+		buf, cores := []int{1, 2, 1}[r%3], []int{2, 3, 4}[r%3]
+		s, bh := gen.Contention(rng, fmt.Sprintf("smallbuf%d", r), gen.ContentionOpts{Max: 2 * cores, Procs: 2, TasksPer: 4, SleepLo: 60, SleepHi: 120, GoFunc: r%2 == 1,
+			CoresFn: func(i int) int { return []int{cores, 1}[i%2] }})
+		jobs = append(jobs, &slotJob{s, bh, Cfg{Buf: buf, Procs: 4}, "bufsize-below-cores-per-task"})
+	}
+	// a task whose in-port is a joined sub-stream, with other tasks keeping the slots busy
+	for r := 0; r < c.Pick(2, 6); r++ {
+		max, mc := []int{2, 3, 4}[r%3], []int{2, 1, 3}[r%3]
+		s := &spec.Spec{Name: fmt.Sprintf("substreamslots%d", r), MaxTasks: max, Sources: map[string]string{}}
+		busy := &spec.Proc{Name: "busysrc", Kind: spec.KFileSource}
+		for k := 0; k < 4*max; k++ {
+			f := fmt.Sprintf("b%02d.txt", k)
+			busy.Files = append(busy.Files, f)
+			s.Sources[f] = f + "\n"
+		}
+		gsrc := &spec.Proc{Name: "gsrc", Kind: spec.KFileSource}
+		for k := 0; k < 3; k++ {
+			f := fmt.Sprintf("g%d.txt", k)
+			gsrc.Files = append(gsrc.Files, f)
+			s.Sources[f] = f + "\n"
+		}
+		in, out := []spec.PortDecl{{Name: "in"}}, []spec.PortDecl{{Name: "out"}}
+		s.Procs = append(s.Procs, busy, gsrc,
+			&spec.Proc{Name: "BUSY", Kind: spec.KCmd, Cmd: spec.BuildCmd("BUSY", in, out, nil, nil, nil)},
+			&spec.Proc{Name: "GEN", Kind: spec.KCmd, Cmd: spec.BuildCmd("GEN", in, out, nil, nil, nil)},
+			&spec.Proc{Name: "SS", Kind: spec.KSubStream},
+			&spec.Proc{Name: "MERGE", Kind: spec.KCmd, Cores: mc, Cmd: spec.BuildCmd("MERGE", []spec.PortDecl{{Name: "in", Join: "space"}}, out, nil, nil, nil), Outs: []*spec.Out{{Port: "out", Pattern: "merged.out"}}})
+		s.Conns = append(s.Conns, &spec.Conn{From: "busysrc.out", To: "BUSY.in"}, &spec.Conn{From: "gsrc.out", To: "GEN.in"}, &spec.Conn{From: "GEN.out", To: "SS.in"}, &spec.Conn{From: "SS.substream", To: "MERGE.in"})
+		bh := vproto.Behaviours{"BUSY": {"sleep": "120"}, "MERGE": {"sleep": "500"}}
+		jobs = append(jobs, &slotJob{s, bh, Cfg{Buf: []int{128, 1}[r%2], Procs: 4}, "joined-sub-stream-consumer"})
 	}
 	run.Parallel(len(jobs), func(i int) {
 		j := jobs[i]
